@@ -6,7 +6,27 @@ package gen
 func RandomMUSInput(r *Rng, maxVars, maxClauses int) (cnf [][]int, n int) {
 	n = r.Range(1, maxVars)
 	addCore := func() {
-		switch r.Intn(5) {
+		switch r.Intn(6) {
+		case 5: // a unit clause (often written with its literal repeated) gating all sign patterns over two other variables:
+			// the unit is needed for unsatisfiability and unit propagation alone does not refute the problem
+			if n >= 3 {
+				l := r.DistinctLits(n, 3)
+				u := []int{l[0]}
+				for k := r.Intn(3); k > 0; k-- {
+					u = append(u, l[0])
+				}
+				cnf = append(cnf, u)
+				for m := 0; m < 4; m++ {
+					c := []int{-l[0], l[1], l[2]}
+					if m&1 == 1 {
+						c[1] = -c[1]
+					}
+					if m&2 == 2 {
+						c[2] = -c[2]
+					}
+					cnf = append(cnf, c)
+				}
+			}
 		case 0: // conflicting units
 			v := r.Intn(n) + 1
 			cnf = append(cnf, []int{v}, []int{-v})
